@@ -110,11 +110,11 @@ type Type struct {
 	Name     string
 }
 
-func Scalar(id TypeID) *Type           { return &Type{ID: id} }
-func ListOf(e *Type) *Type             { return &Type{ID: List, Elems: []*Type{e}} }
-func SetOf(e *Type) *Type              { return &Type{ID: Set, Elems: []*Type{e}} }
-func MapOf(k, v *Type) *Type           { return &Type{ID: Map, Elems: []*Type{k, v}} }
-func TupleOf(e ...*Type) *Type         { return &Type{ID: Tuple, Elems: e} }
+func Scalar(id TypeID) *Type   { return &Type{ID: id} }
+func ListOf(e *Type) *Type     { return &Type{ID: List, Elems: []*Type{e}} }
+func SetOf(e *Type) *Type      { return &Type{ID: Set, Elems: []*Type{e}} }
+func MapOf(k, v *Type) *Type   { return &Type{ID: Map, Elems: []*Type{k, v}} }
+func TupleOf(e ...*Type) *Type { return &Type{ID: Tuple, Elems: e} }
 func UDTOf(names []string, e ...*Type) *Type {
 	if len(names) != len(e) {
 		panic("value.UDTOf: names/types mismatch")
@@ -205,24 +205,26 @@ type Value struct {
 	Keys   []Value  // KMap: the keys
 }
 
-func Null() Value                      { return Value{K: KNull} }
-func Empty() Value                     { return Value{K: KEmpty} }
-func IntV(i int64) Value               { return Value{K: KInt, I: big.NewInt(i)} }
-func BigV(i *big.Int) Value            { return Value{K: KInt, I: new(big.Int).Set(i)} }
-func Bits32V(u uint32) Value           { return Value{K: KBits32, U32: u} }
-func Bits64V(u uint64) Value           { return Value{K: KBits64, U64: u} }
-func BytesV(b []byte) Value            { return Value{K: KBytes, B: append([]byte{}, b...)} }
-func TextV(s string) Value             { return Value{K: KText, B: []byte(s)} }
-func BoolV(b bool) Value               { return Value{K: KBool, Bool: b} }
+func Null() Value            { return Value{K: KNull} }
+func Empty() Value           { return Value{K: KEmpty} }
+func IntV(i int64) Value     { return Value{K: KInt, I: big.NewInt(i)} }
+func BigV(i *big.Int) Value  { return Value{K: KInt, I: new(big.Int).Set(i)} }
+func Bits32V(u uint32) Value { return Value{K: KBits32, U32: u} }
+func Bits64V(u uint64) Value { return Value{K: KBits64, U64: u} }
+func BytesV(b []byte) Value  { return Value{K: KBytes, B: append([]byte{}, b...)} }
+func TextV(s string) Value   { return Value{K: KText, B: []byte(s)} }
+func BoolV(b bool) Value     { return Value{K: KBool, Bool: b} }
 func DecV(unscaled *big.Int, scale int32) Value {
 	return Value{K: KDec, I: new(big.Int).Set(unscaled), Scale: scale}
 }
-func DurV(months, days, nanos int64) Value { return Value{K: KDur, Months: months, Days: days, Nanos: nanos} }
-func UUIDV(b []byte) Value                 { return Value{K: KUUID, B: append([]byte{}, b...)} }
-func InetV(b []byte) Value                 { return Value{K: KInet, B: append([]byte{}, b...)} }
-func ListV(e ...Value) Value               { return Value{K: KList, Elems: append([]Value{}, e...)} }
-func TupleV(e ...Value) Value              { return Value{K: KTuple, Elems: append([]Value{}, e...)} }
-func UDTV(e ...Value) Value                { return Value{K: KUDT, Elems: append([]Value{}, e...)} }
+func DurV(months, days, nanos int64) Value {
+	return Value{K: KDur, Months: months, Days: days, Nanos: nanos}
+}
+func UUIDV(b []byte) Value    { return Value{K: KUUID, B: append([]byte{}, b...)} }
+func InetV(b []byte) Value    { return Value{K: KInet, B: append([]byte{}, b...)} }
+func ListV(e ...Value) Value  { return Value{K: KList, Elems: append([]Value{}, e...)} }
+func TupleV(e ...Value) Value { return Value{K: KTuple, Elems: append([]Value{}, e...)} }
+func UDTV(e ...Value) Value   { return Value{K: KUDT, Elems: append([]Value{}, e...)} }
 func MapV(kv ...Value) Value {
 	if len(kv)%2 != 0 {
 		panic("value.MapV: odd number of arguments")
